@@ -126,9 +126,12 @@ class RecLearner:
         e = self._entry(self.n_pred)
         self.n_pred += 1
         a = self._choose(e, actions)
+        has_p = self.fmt in ("AP", "APK", "dAP", "dAPK")
+        has_k = self.fmt.endswith("K")
+        p, kw = (self._prob(e) if has_p else None), (self._kw(e) if has_k else {})
         self.calls.append({"m": "predict", "ctx": canon(context), "acts": canon(actions), "ctx_id": id(context), "b": b,
-                           "chose": canon(a)})
-        return self._fmt(a, self._prob(e), self._kw(e))
+                           "ret": {"a": canon(a), "p": canon(p), "kw": canon(kw)}})
+        return self._fmt(a, p, kw)
 
     # ---- Learner interface
     def predict(self, context, actions):
@@ -159,8 +162,9 @@ class RecLearner:
     def _score_row(self, context, actions, action, b):
         e = self._entry(self.n_score)
         self.n_score += 1
-        self.calls.append({"m": "score", "ctx": canon(context), "acts": canon(actions), "a": canon(action), "b": b})
         s = e.get("s", [1, 2])
+        self.calls.append({"m": "score", "ctx": canon(context), "acts": canon(actions), "a": canon(action), "b": b,
+                           "ret": canon(s[0] / s[1])})
         return s[0] / s[1]
 
     def _score(self, context, actions, action):
